@@ -33,7 +33,7 @@ from ..engine.report import AnalysisError, Run
 from ..engine.resolver import ClassInfo, FuncInfo, Program, body_walk, find_installed_source, parent_map
 from ..engine.sympath import Path as SymPath, SymExec, sym_paths
 from ..engine.util import u
-from ._c03_util import AgeInterp, Lin, Poison, RoleInterp, SetV, is_property, is_static, resolve_local, seg, self_obj, splice
+from ._c03_util import AgeInterp, Lin, Poison, RoleInterp, SetV, StateRead, is_property, is_static, resolve_local, seg, self_obj, splice
 
 BOUNDS = "microgrid._power_managing._bounds"
 MAT = "microgrid._power_managing._matryoshka"
@@ -516,6 +516,12 @@ def check_sweep(run: Run, prog: Program, tier: str = "quick") -> None:
     if not run.check("T" in sw.roles, "C03.ENV", fn.qual, "return <running target>",
                      "the sweep does not return the running target (the value returned after the loop "
                      "is not one loop-carried variable)", node=fn.node, file=fn.file):
+        return
+    clash = [k for k in ("L", "U", "X") if sw.roles.get(k) == sw.roles["T"]]
+    if not run.check(not clash, "C03.ENV", fn.qual, f"return {sw.roles['T']}",
+                     "the sweep does not return the running target: the value returned after the loop is "
+                     f"the variable that reaches clamp_to_bounds as {'/'.join(clash)} bound", node=fn.node, file=fn.file,
+                     instance=f"{fn.qual} :: returned variable is not a running bound"):
         return
     if not sw.roles_ok():
         raise AnalysisError(f"{fn.qual}: cannot bind the running bounds / zone / target among the "
@@ -1261,10 +1267,16 @@ def structural_controls(prog: Program) -> list[tuple[str, str, str, str, str]]: 
 def env_rules(run: Run, prog: Program, tier: str = "quick") -> None:
     check_clamp(run, prog)
     check_adjust(run, prog)
-    check_sweep(run, prog, tier)
-    if tier == "thorough":
-        check_end_to_end(run, prog, 1, SHAPES_ALL)
-        check_end_to_end(run, prog, 2, SHAPES_SPLIT)
+    try:
+        check_sweep(run, prog, tier)
+        if tier == "thorough":
+            check_end_to_end(run, prog, 1, SHAPES_ALL)
+            check_end_to_end(run, prog, 2, SHAPES_SPLIT)
+    except StateRead as exc:
+        fn = prog.func(f"{MAT}:Matryoshka._calc_target_power")
+        run.violation("C03.PURE", fn.qual, "instance state in the target computation",
+                      "the target computation reads or writes instance state: the result would depend on "
+                      f"history, not only on the live proposals and the bounds ({exc})", node=fn.node, file=fn.file)
 
 
 def other_rules(run: Run, prog: Program) -> None:
